@@ -419,8 +419,10 @@ def butler_batch(payload):
     try:
         _populate(butler)
         bind = payload.get("bind") or {}
+        import time as _time
         for w in payload["wheres"]:
             rec = {"where": w}
+            _t0 = _time.time()
             for name, fn in (
                 ("query_data_ids", lambda: list(butler.query_data_ids(["visit", "detector"], where=w, bind=bind, instrument="Cam", explain=False))),
                 ("query_dimension_records", lambda: list(butler.query_dimension_records("detector", where=w, bind=bind, instrument="Cam", explain=False))),
@@ -431,6 +433,7 @@ def butler_batch(payload):
                     rec[name] = {"ok": True, "n": len(r)}
                 except Exception as e:  # noqa: BLE001
                     rec[name] = _where_fail(e)
+            rec["seconds"] = round(_time.time() - _t0, 2)
             out.append(rec)
     finally:
         try:
